@@ -174,6 +174,9 @@ def run(ctx):
             base = simlib.run_one(binary, p, argv=argv_of(CONFIGS[0]), raw=True)
             outs = simlib.run_jobs(binary, [(p, argv_of(cfg), ())] * 10)
             n = sum(1 for r in outs if (c01.observable(r[0]), r[1]) != (c01.observable(base[0]), base[1]))
+            if n == 0 and int(cfg[1]) > 1:   # seen once in the sweep, not again in 10 runs: the intermittent parallel-execution class
+                vio.append(common.Violation("outcome differs intermittently from raw/1/futex, only with nthreads>1 (OS-schedule dependent)", "seen once under %s, not again in 10 runs of %s" % (name_of(cfg), simalpha.text(culprit)), {"case": culprit, "cfg": list(cfg)}))
+                continue
             if n == 0:
                 common.log("C02: difference did not reproduce (harness bug?): %s" % key)
                 raise SystemExit(2)
@@ -190,6 +193,9 @@ def run(ctx):
             base = simlib.run_one(binary, packp, argv=argv_of(CONFIGS[0]), raw=True)
             outs = simlib.run_jobs(binary, [(packp, argv_of(cfg), ())] * 40)
             n = sum(1 for r in outs if (c01.observable(r[0]), r[1]) != (c01.observable(base[0]), base[1]))
+            if n == 0 and int(cfg[1]) > 1:
+                vio.append(common.Violation("outcome differs intermittently from raw/1/futex, only with nthreads>1 (OS-schedule dependent)", "seen once under %s, not again in 40 runs of the pack" % name_of(cfg), {"case": packcases[0], "cfg": list(cfg)}))
+                continue
             if n == 0:
                 common.log("C02: difference did not reproduce in 40 runs (harness bug?): %s" % key)
                 raise SystemExit(2)
